@@ -309,18 +309,16 @@ Definition ispace (c : acase) (x : sp) : list item * list (N * N) :=
    drops every deleted item; the class is gone. *)
 (* D24 (iterator-level add_global followed by add_imported_global: the returned id collided) is repaired:
    ModuleIterator::add_global goes through Module::add_global_internal; the class is gone. *)
-(* class 300: DataType::FuncRef / ExternRef (what the parser reports for (ref func) / (ref extern)) are emitted
-   as the nullable funcref / externref *)
-Definition nonnull_req (t : gty) : bool := N.eqb (gt_ty t) 7 || N.eqb (gt_ty t) 8.
-Definition known_300 (c : acase) : bool :=
-  existsb (fun o => match o with OAddGlobal _ t _ | OAddImpGlobal _ t => nonnull_req t | _ => false end) (ah_ops c).
+(* class 300 / D30 (DataType::FuncRef / ExternRef -- what the parser reports for (ref func) / (ref extern) -- were
+   emitted as the nullable funcref / externref) is repaired: From<&DataType> for wasmparser::ValType keeps them
+   non-nullable; the class is gone.  No known class is left for C30. *)
 
 Definition K (n : N) (p : acase -> bool) : N * (acase -> bool) := (n, p).
 Definition cls (c : acase) (l : list (N * (acase -> bool))) : list N :=
   flat_map (fun kp : N * (acase -> bool) => if snd kp c then [fst kp] else []) l.
 
 Definition verdict30 (c : acase) : Util.verdict :=
-  (agree c, in_domain c, holds c, cls c [K 300 known_300]).
+  (agree c, in_domain c, holds c, cls c []).
 Definition report_C30 := run_report verdict30.
 
 (* ------------------------------------------------------------------------------------------ *)
